@@ -348,6 +348,18 @@ def _and_then(it, c, a):
     return none() if var == 'None' else it.call_closure(a[1], [pay])
 
 
+@model('Option::or_else')
+def _opt_or_else(it, c, a):
+    var, pay = shape(it, a[0], ['None', 'Some'])
+    return (a[0] if not isinstance(a[0], LazyV) else some(pay)) if var == 'Some' else it.call_closure(a[1], [])
+
+
+@model('Option::or')
+def _opt_or(it, c, a):
+    var, pay = shape(it, a[0], ['None', 'Some'])
+    return (a[0] if not isinstance(a[0], LazyV) else some(pay)) if var == 'Some' else a[1]
+
+
 @model('Option::unwrap_or_else')
 def _unwrap_or_else(it, c, a):
     var, pay = shape(it, a[0], ['None', 'Some'])
